@@ -129,7 +129,13 @@ MValue gen_value(Rng &r, const GenCfg &c, int depth) {
             size_t n = r.below((uint64_t) c.max_members + 1);
             for (size_t i = 0; i < n; ++i) {
                 ustr key;
-                if (r.chance(3, 4)) { const NameClass &nc = r.pick(key_pool()); key = nc.variants[r.below(nc.variants.size())]; }
+                if (c.boundary_bias && r.chance(1, 12)) {
+                    // table keys near the line-length limit (a key cannot be a text field: key + delimiters + colon must fit on one line)
+                    static const size_t KL[] = { 1500, 1790, 1799, 2030, 2040, 2044, 2045, 2046, 2050 };
+                    size_t n2 = KL[r.below(sizeof KL / sizeof KL[0])]; bool blanks = r.chance(1, 2);
+                    for (size_t q = 0; q < n2; ++q) key += (blanks && q % 17 == 5) ? u' ' : (char16_t) ('a' + q % 26);
+                }
+                else if (r.chance(3, 4)) { const NameClass &nc = r.pick(key_pool()); key = nc.variants[r.below(nc.variants.size())]; }
                 else { GenCfg kc = c; kc.allow_long = r.chance(1, 8); key = gen_string(r, kc); if (key.size() > 1200) key.resize(1000); if (!m_valid_key(key)) key = U("k2"); }
                 if (c.cif11_chars_only) for (auto &ch : key) if (ch > 0x7e) ch = u'k';
                 MValue e = gen_value(r, c, depth + 1);
